@@ -57,6 +57,12 @@ func c19Tree(c *C19Case) *wvlib.Build {
 		add(wvlib.BEntry{Path: "top/..cache/x", Kind: 'f', Data: r.Bytes(5)})
 		add(wvlib.BEntry{Path: ".hidden", Kind: 'f', Data: r.Bytes(1)})
 		add(wvlib.BEntry{Path: "v1..2", Kind: 'd'})
+		// names that are legal on this filesystem and awkward elsewhere
+		for i, nm := range []string{"with space.txt", "ünï/cödé/файл.bin", "back\\slash.bin", "-leading-dash", "trailing.dot.", "co:lon", "tab\tname", "q?*<>|.bin", "semi;colon&amp", "percent%41", "a/very/deep/" + strings.Repeat("d/", 12) + "leaf", strings.Repeat("long", 50)} {
+			add(wvlib.BEntry{Path: "odd/" + nm, Kind: 'f', Data: r.Bytes(1 + i)})
+		}
+		add(wvlib.BEntry{Path: "odd/link with space", Kind: 'l', Dest: "with space.txt"})
+		add(wvlib.BEntry{Path: "odd/empty dir ü", Kind: 'd'})
 		// contents a copy loop may treat specially: runs of zero bytes (sparse / pre-allocated files) at the start,
 		// in the middle and at the END of files whose sizes are and are not multiples of the usual buffer sizes
 		const K = 32 * 1024
